@@ -169,6 +169,9 @@ class Program(object):
                     tree = ast.parse(source, filename=path)
                 except SyntaxError as e:
                     raise AnalysisError('cannot parse %s: %s' % (path, e))
+                if os.environ.get('NFCSA_NO_CANON') != '1':
+                    from .canon import canonical
+                    tree = canonical(tree)
                 m = Module(name, path, tree, source, is_pkg)
                 self.modules[name] = m
         for m in self.modules.values():
